@@ -253,6 +253,8 @@ SRC_MODULES = {
     "Anonymongo.Src.seqVal_eq": "Dispatch", "Anonymongo.Src.redactNamespaceFields_eq": "Dispatch", "Anonymongo.Src.Gen_searchedFields": "Dispatch",
     "Anonymongo.Src.redactCommand_eq": "Command", "Anonymongo.Src.redactNamespace_eq": "Command", "Anonymongo.Src.blkInner": "Command",
     "Anonymongo.Src.blkLoop": "Command", "Anonymongo.Src.blkLoopG": "Command", "Anonymongo.Src.opsLoop": "Command",
+    "Anonymongo.Src.RedactMongoLog_eq": "Line", "Anonymongo.Src.RedactMongoLog_eq_gen": "Line", "Anonymongo.Src.RedactMongoLog_err": "Line",
+    "Anonymongo.Src.k12_eq": "Line", "Anonymongo.Src.k3_eq_obj": "Line", "Anonymongo.Src.attrFrom12_model": "Line", "Anonymongo.Src.Gen_ipPH": "Line",
     "Anonymongo.Src.HashName_eq": "Hash", "Anonymongo.Src.trimLeftCutset_dollar": "Hash",
     "Anonymongo.Src.redactQueryValues_eq": "Walk", "Anonymongo.Src.redactArrayValuesWithKey_eq": "Walk", "Anonymongo.Src.redactArrayValues_eq": "Walk",
     "Anonymongo.Src.redactQueryValues_eq_gen": "Walk", "Anonymongo.Src.QA_all": "Walk", "Anonymongo.Src.Q_step": "Walk", "Anonymongo.Src.A_step": "Walk",
@@ -264,21 +266,24 @@ _LEAF = ["Anonymongo.Src.redactScalarValue_eq", "Anonymongo.Src.redactScalarValu
 _PATH = ["Anonymongo.Src.getOp_eq", "Anonymongo.Src.traverseMapPath_eq", "Anonymongo.Src.traverseMapPath_step", "Anonymongo.Src.traverseFuel_enough",
          "Anonymongo.Src.withinSearchUserDocument_eq", "Anonymongo.Src.RemoveElementAfter_eq", "Anonymongo.Src.RemoveElementsBeforeIncluding_eq"]
 _HELP = ["Anonymongo.Src.isFieldNameValue_eq", "Anonymongo.Src.isRedactableFieldPatternInArray_eq", "Anonymongo.Src.isInSearchStage_eq", "Anonymongo.Src.augmentOp_eq"]
+_LINE = ["Anonymongo.Src.RedactMongoLog_eq", "Anonymongo.Src.RedactMongoLog_eq_gen", "Anonymongo.Src.RedactMongoLog_err", "Anonymongo.Src.k12_eq",
+         "Anonymongo.Src.k3_eq_obj", "Anonymongo.Src.attrFrom12_model", "Anonymongo.Src.Gen_ipPH"]
 _CMD = ["Anonymongo.Src.redactCommand_eq", "Anonymongo.Src.blkInner", "Anonymongo.Src.blkLoopG", "Anonymongo.Src.opsLoop"]
 _DISP = ["Anonymongo.Src.redactOperation_eq", "Anonymongo.Src.redactOperation_seq", "Anonymongo.Src.seqOp_map", "Anonymongo.Src.seqVal_eq"]
 SRC_THEOREMS = {
-    "C01": _LEAF + ["Anonymongo.Src.isInSearchStage_eq"] + _WALK + _DISP + _CMD,
-    "C04": _DISP + _CMD,
+    "C01": _LEAF + ["Anonymongo.Src.isInSearchStage_eq"] + _WALK + _DISP + _CMD + _LINE,
+    "C04": _DISP + _CMD + _LINE,
+    "C06": _LINE,
     "C02": _LEAF + _WALK,
     "C03": ["Anonymongo.Src.redactScalarValue_eq"] + _WALK,
     "C05": _LEAF + _WALK,
-    "C07": _LEAF + _PATH + _HELP + _WALK + _DISP + _CMD + ["Anonymongo.Src.redactNamespace_eq"],
+    "C07": _LEAF + _PATH + _HELP + _WALK + _DISP + _CMD + ["Anonymongo.Src.redactNamespace_eq"] + _LINE,
     "C10": ["Anonymongo.Src.redactString_eq", "Anonymongo.Src.redactScalarValue_eq"] + _WALK,
     "C12": ["Anonymongo.Src.getOp_eq", "Anonymongo.Src.traverseMapPath_eq", "Anonymongo.Src.HashName_eq", "Anonymongo.Src.redactNamespaceFields_eq", "Anonymongo.Src.Gen_searchedFields",
-            "Anonymongo.Src.redactNamespace_eq", "Anonymongo.Src.blkLoop", "Anonymongo.Src.blkInner"],
+            "Anonymongo.Src.redactNamespace_eq", "Anonymongo.Src.blkLoop", "Anonymongo.Src.blkInner"] + _LINE,
     "C13": ["Anonymongo.Src.HashName_eq", "Anonymongo.Src.trimLeftCutset_dollar"],
     "C14": _LEAF + ["Anonymongo.Src.isRedactableFieldPatternInArray_eq", "Anonymongo.Src.augmentOp_eq"] + _WALK,
-    "C15": ["Anonymongo.Src.isFieldNameValue_eq", "Anonymongo.Src.HashName_eq"] + _WALK,
+    "C15": ["Anonymongo.Src.isFieldNameValue_eq", "Anonymongo.Src.HashName_eq"] + _WALK + _LINE,
     "C19": ["Anonymongo.Src.redactScalarValue_eq"] + _WALK,
 }
 SRC_NOTE = ("; SOURCE-LEVEL (tools/gotr, Generated/Src.lean, Props/Src/*): the leaf and lookup functions are TRANSLATED from the Go source on every run "
@@ -287,6 +292,9 @@ SRC_NOTE = ("; SOURCE-LEVEL (tools/gotr, Generated/Src.lean, Props/Src/*): the l
             "table and flag setting; the theorems above about those model functions are therefore theorems about the current source text; "
             "the QUERY WALKER and the ARRAY WALKER too (Props/Src/Walk: redactQueryValues_eq, redactArrayValuesWithKey_eq - the translated mutual recursion "
             "of redactQueryValues / redactArrayValuesWithKey returns the model's Q / A; HashName_eq: the translated HashName is the model's hashName (SHA-256, Split / Join and %x being the model's); "
+            "RedactMongoLog_eq (Props/Src/Line): the translated RedactMongoLog - emitted in continuation style, one Lean function per statement - returns, for every line the JSON reader "
+            "accepts as an object without duplicate keys at any level, the model's redactLine (address rewrite, gate, field-name prefix test, the three command attributes, plan summary, "
+            "attr.ns; every update of attr reaching the entry) and the reader's error for every other line; the JSON reader, the plan-summary rewriter and the stage walker are parameters; "
             "redactCommand_eq / redactNamespace_eq (Props/Src/Command): the translated redactCommand (the operation, the operation wrapped by explain, the operations of bulkWrite) "
             "and redactNamespace (the searched fields, those of the explained command, those of the nsInfo elements) - Go updates these nested documents through pointers; the "
             "translator writes each update back into the enclosing values - return the model's key-wise rebuild for every command document without duplicate keys at any level; "
